@@ -22,6 +22,11 @@ type DB struct {
 	// LoadError is set when the graph could not be represented (unknown kind, bad property value);
 	// every Query then reports Unsupported.
 	LoadError error
+
+	// MaxSteps, when positive, replaces the default evaluation step budget of a statement (a statement that
+	// needs more is reported Unsupported). Checks that execute many generated statements in parallel shards
+	// and do not need the rows (C03) set a small budget to bound memory.
+	MaxSteps int64
 }
 
 // NewDB loads g as graph graphID. kindIDs is the content of the kind table (every kind used by g
